@@ -22,9 +22,9 @@ const (
 func init() {
 	register(&PropDef{
 		ID: "C03", Level: "exploration", Quick: 7200, Thorough: 21000, QuickCap: 110,
-		Rule: "row-set part: a table holding a drawn subset of the adversarial keys {a, a\\0, a\\0\\0, ab, b, \\0, \\xff} plus 0-400 filler rows with a drawn number of cells (results span 1..several messages); 60 RowSets per run from the finite space {<=2 ranges x bound in {unset, open, closed} x 7 keys} x {no key, one key} x engine = 1220424 items visited by seeded permutation (the thorough tier consumes it completely), plus random larger sets (duplicates, overlaps, adjacency, inverted); rows_limit in {0,1,2,5,10^6} and n/3, n/2, 3n/4, n-1, n for n stored rows; optionally a row-dropping filter; result compared with the row-set model and decoded with the ReadRows chunk state machine. sample part: SampleRowKeys after histories with deletes, family drops, rule-less read-modify-writes, with the sampler's draws taken from the rng stream; distinct = hash of (engine, row sets / shapes); non-trivial = a read whose result differs from the whole table",
-		Real: []string{"bttest ReadRows, validateRowRanges, mergeRowRanges/mergeSimpleRanges, chunkBuilder, SampleRowKeys, all engines' range iteration"},
-		Stub: []string{"gRPC stream (recording stream)", "the key sampler's random source (rng stream)"},
+		Rule:   "row-set part: a table holding a drawn subset of the adversarial keys {a, a\\0, a\\0\\0, ab, b, \\0, \\xff} plus 0-400 filler rows with a drawn number of cells (results span 1..several messages); 60 RowSets per run from the finite space {<=2 ranges x bound in {unset, open, closed} x 7 keys} x {no key, one key} x engine = 1220424 items visited by seeded permutation (the thorough tier consumes it completely), plus random larger sets (duplicates, overlaps, adjacency, inverted); rows_limit in {0,1,2,5,10^6} and n/3, n/2, 3n/4, n-1, n for n stored rows; optionally a row-dropping filter; result compared with the row-set model and decoded with the ReadRows chunk state machine. sample part: SampleRowKeys after histories with deletes, family drops, rule-less read-modify-writes, with the sampler's draws taken from the rng stream; distinct = hash of (engine, row sets / shapes); non-trivial = a read whose result differs from the whole table",
+		Real:   []string{"bttest ReadRows, validateRowRanges, mergeRowRanges/mergeSimpleRanges, chunkBuilder, SampleRowKeys, all engines' range iteration"},
+		Stub:   []string{"gRPC stream (recording stream)", "the key sampler's random source (rng stream)"},
 		Assume: []string{"empty row keys and empty-key bounds are not sent", "start == end with an open bound is an empty range, not an error"},
 		Run:    runC03,
 		Subspaces: func() map[string]int {
